@@ -11,7 +11,7 @@ def run(ctx):
     ctx.cov["gen_facts"] = facts
     if facts is not None:
         ctx.prove(families=("vaa", "processor"))
-    vaacommon.run_vaa(ctx, "c04", ("body", "eq", "ne"))
+    vaacommon.run_vaa(ctx, "c04", ("body", "eq", "ne", "wire", "conc"))
     # the processor's VAA construction from a chain message: what it signs must be the digest of exactly that message
     # (clause signed-digest-differs-from-message on the processor family's scenarios; `dig=` is computed by the harness)
     vaa_rule = None
@@ -19,10 +19,18 @@ def run(ctx):
     proc_rule = ctx.cov.get("rule", "")
     ctx.cov["rule"] = ("processor (handleMessage's VAA construction): " + proc_rule[:300] + " ... | vaa: body: SerializeBody/SigningMsg of random VAAs vs the model's bytes and Keccak(Keccak(.)) recomputed by the harness; "
                        "eq: digest unchanged under version / set index / signatures / nanosecond changes; ne: each single body-field change "
-                       "(incl. moving a byte across the consistency-level/payload boundary) changes signing body and digest")
+                       "(incl. moving a byte across the consistency-level/payload boundary) changes signing body, digest and wire form; wire: the section of Marshal's "
+                       "output after 6+66*count bytes (what the contracts hash) equals the signing body and hashes to the signed digest, payload lengths 0.."
+                       "65537, 0..255 signatures; conc: digests / encodings computed by 6+1 goroutines (plus 2 verifiers) in barrier-released rounds in a "
+                       "child process vs the sequentially computed ones; panic, hang (15 s watchdog, fires only on a stuck call) and process crash are verdicts")
     ctx.cov["trusted_base"] += ["checks/c04gen.py: regex extraction of parseVM (Messages.sol) and parseAndVerifyVAA (governance.ral) offsets; contracts never executed",
                                 "Keccak-256 is an oracle: theorems stop at pre-image (signing body) level"]
     ctx.assumptions += ["timestamps outside [0, 2^32) seconds alias modulo 2^32 in Go and both contracts alike (the wire format's representable range)"]
+    # Alephium part ("every honest guardian observing the same message signs the same 32 bytes"): one on-chain event must become the
+    # same message on the polling path, on the re-observation path and under every shipped configuration; family alphwatch's harness
+    # part `c04`, C04 owns only the ...-forwarded-altered clauses (checks/alphwatchcommon.py)
+    from checks import alphwatchcommon
+    alphwatchcommon.run_paths_for_c04(ctx)
     # if a Gen-based theorem broke, name the deviating offsets as the failing input
     if facts is not None and any(b[0] == "proof" for b in ctx.broken):
         want = [("timestamp", 0, 4), ("nonce", 4, 4), ("emitterChainId", 8, 2), ("targetChainId", 10, 2),
